@@ -1129,10 +1129,12 @@ func c3Time(c *Ctx) {
 	}
 }
 
-func c3NilError(c *Ctx) {
+func c3NilError(c *Ctx) { c3NilErrorR(c, "R3.6") }
+
+func c3NilErrorR(c *Ctx, rule string) {
 	ne := c.Func(ZapPath, "NamedError")
 	er := c.Func(ZapPath, "Error")
-	if !c.Anchor("R3.6", "zap.NamedError/Error", ne != nil && er != nil) {
+	if !c.Anchor(rule, "zap.NamedError/Error", ne != nil && er != nil) {
 		return
 	}
 	sawSkip, sawLit := false, false
@@ -1144,9 +1146,9 @@ func c3NilError(c *Ctx) {
 			sawLit = len(atoms) == 1 && atoms[0] == "err != nil"
 		}
 	}
-	c.Check(sawSkip && sawLit, "R3.6", ne.String(), "nil-skipped", ne.Pos(), "NamedError returns Skip() exactly for a nil error and an ErrorType field otherwise")
+	c.Check(sawSkip && sawLit, rule, ne.String(), "nil-skipped", ne.Pos(), "NamedError returns Skip() exactly for a nil error and an ErrorType field otherwise")
 	for _, r := range Returns(er) {
-		c.Check(Desc(RetVals(r)[0]) == `NamedError("error", err)`, "R3.6", er.String(), "key-error", r.Pos(), "Error(err) is NamedError(\"error\", err) (%s)", Desc(RetVals(r)[0]))
+		c.Check(Desc(RetVals(r)[0]) == `NamedError("error", err)`, rule, er.String(), "key-error", r.Pos(), "Error(err) is NamedError(\"error\", err) (%s)", Desc(RetVals(r)[0]))
 	}
 	sk := c.Func(ZapPath, "Skip")
 	st, _ := c.ConstVal(CorePath, "SkipType")
@@ -1156,7 +1158,7 @@ func c3NilError(c *Ctx) {
 			okS = true
 		}
 	}
-	c.Check(okS, "R3.6", sk.String(), "skip-type", sk.Pos(), "Skip() builds a SkipType field")
+	c.Check(okS, rule, sk.String(), "skip-type", sk.Pos(), "Skip() builds a SkipType field")
 }
 
 func c3Equals(c *Ctx, byType map[string][]fieldLit) {
